@@ -635,6 +635,7 @@ func rulesC18(c *Ctx) {
 	R.Rule("R4", "every keyset entry the wallet keeps in memory carries that keyset's fee (from the mint's answer, from storage or from the entry it replaces)", 4)
 	c.c18KeysetEntriesCarryFee()
 	c.c18SendSplit()
+	R.Rule("R8", "the keyset listing the wallet synchronises with is not served from the mint's response cache (shared with C20.R4: only swap and mint are cached; a cached listing keeps naming a rotated-out keyset as active and the swap behind a send is refused)", 10)
 	R.Rule("R6", "the mint's fee operation is the formula the wallet mirrors: ceil(sum of the inputs' keyset ppk / 1000), one rounding per transaction (shared with C02.R4)", 1)
 	R.Rule("R5", "a swap that the mint accepted removes its inputs from the spendable bucket before anything can fail (a later exact selection must not hand out spent proofs; shared with C17.R2)", 1)
 	c.ruleSwapInputsRemovedFirst("R5")
@@ -844,6 +845,7 @@ func rulesC18(c *Ctx) {
 	}
 
 	c.ruleWalletFeeFormula("R3")
+	c.runAs("R4", "R8", func(cc *Ctx) { cc.c20Cache() })
 	// the mint's side of the same formula (shared with C02.R4): the wallet's estimate is exact only if the mint
 	// charges one ceil over the summed ppk of all inputs
 	if ks := c.keysetsMapField("R6"); ks != "" {
